@@ -38,6 +38,8 @@ pub fn wide_types() -> Vec<Ty> {
         Ty::Tuple(vec![s(), s(), s(), s(), s(), s(), s(), s(), Ty::U8]),
         Ty::Record(vec![Ty::U64, Ty::U64, Ty::U64, Ty::U64, Ty::U64, Ty::U64, Ty::U64, Ty::U64, s(), s(), s(), s(), s()]),
         Ty::Tuple(vec![Ty::U8, Ty::F64, Ty::U16, Ty::F32, Ty::Bool, Ty::S64, Ty::Char, Ty::List(Box::new(Ty::U8)), Ty::U8, Ty::U8, Ty::U8, Ty::U8, Ty::U8, Ty::U8, Ty::U8, Ty::Option(Box::new(s()))]),
+        // the smallest named type that nests an anonymous list
+        Ty::Record(vec![Ty::List(Box::new(Ty::U8))]),
         Ty::Record(vec![Ty::List(Box::new(s())), Ty::Option(Box::new(Ty::List(Box::new(Ty::U64)))), Ty::Result(Some(Box::new(s())), Some(Box::new(Ty::List(Box::new(s()))))), Ty::Variant(vec![None, Some(s()), Some(Ty::F64)]), Ty::Tuple(vec![Ty::U8; 9])]),
     ]
 }
@@ -57,7 +59,7 @@ fn universe_types(name: &str) -> Vec<Ty> {
 }
 
 /// Run the universe part: `plan` = list of (universe name, configurations).
-pub fn run_universe(id: &str, plan: &[(String, Vec<CConfig>)], chunk: usize, level2: bool, seed: u64) -> UniverseOutcome {
+pub fn run_universe(id: &str, plan: &[(String, Vec<CConfig>)], chunk: usize, level2: bool, seed: u64, known: &dyn Fn(&str) -> bool) -> UniverseOutcome {
     let clang = crate::cc::clang();
     let mut excluded: BTreeMap<&'static str, usize> = BTreeMap::new();
     let mut jobs: Vec<(CConfig, String, Vec<Ty>)> = Vec::new();
@@ -103,7 +105,7 @@ pub fn run_universe(id: &str, plan: &[(String, Vec<CConfig>)], chunk: usize, lev
         engine::job(types, cfg, &clang, level2, label, timeout)
     });
     let types: Vec<Ty> = all_types.into_iter().filter(|t| world::exclusion(t).is_none()).collect();
-    let mut out = aggregate(id, &json!(plan_json), &configs, &types, excluded, &results, chunk);
+    let mut out = aggregate(id, &json!(plan_json), &configs, &types, excluded, &results, chunk, known);
     out.coverage["jobs"] = json!(jobs.len());
     out
 }
@@ -116,6 +118,7 @@ pub fn aggregate(
     excluded: BTreeMap<&'static str, usize>,
     results: &[Value],
     chunk: usize,
+    known: &dyn Fn(&str) -> bool,
 ) -> UniverseOutcome {
     let mut machinery = Vec::new();
     let mut per_cfg: BTreeMap<String, BTreeMap<String, u64>> = BTreeMap::new();
@@ -171,13 +174,18 @@ pub fn aggregate(
         let distinct_types: BTreeSet<&str> = ps.iter().map(|p| p["ty"].as_str().unwrap_or("")).collect();
         let ntypes = distinct_types.len();
         let mut seen = BTreeSet::new();
+        let mut fresh = 0usize;
         for p in &ps {
             let key = format!("{class}:{}", p["ty"].as_str().unwrap_or(""));
             if !seen.insert(key.clone()) {
                 continue;
             }
-            if seen.len() > MAX_REPORT_PER_CLASS {
-                break;
+            // listed known findings do not use up the cap (so they can never hide what comes next)
+            if !known(&key) {
+                fresh += 1;
+                if fresh > MAX_REPORT_PER_CLASS {
+                    break;
+                }
             }
             let what = format!(
                 "{class} on {} [{}], sent {} / answered {}: {} ({} failing cases over {} types in this class)",
@@ -385,6 +393,7 @@ pub fn main(id: &str) {
     if let Some(d) = run.replay_detail() {
         replay(id, &d);
     }
+    crate::cc::gc(48);
     // quick: u1 ∪ pairs ∪ wide, default configuration.
     // thorough: (u1 ∪ u2 ∪ wide) x all six configurations, and the depth-3 universe u3r x the two
     // configurations that differ most (default/utf8, no-sig-flattening/utf16).
@@ -406,7 +415,7 @@ pub fn main(id: &str) {
         }
     }
     let chunk = run.pick(32, 60);
-    let out = run_universe(id, &plan, chunk, true, run.seed);
+    let out = run_universe(id, &plan, chunk, true, run.seed, &|k| run.is_known(k));
     let mut machinery = out.machinery;
     let mut violations = out.violations;
     let mut cov = out.coverage;
